@@ -1,0 +1,18 @@
+//go:build verif
+
+package gfd
+
+// Lemma functions for /verif/gvc. They are never called; each exists so that a
+// statement about the composition of several functions is verified against
+// those functions' contracts (see zz_contracts_verif.go).
+
+func lemmaRoundTrip(fd, el, row, col int) (a, b, c, d int) {
+	g := NewGFD(fd, el, row, col)
+	return g.Fd(), g.EventLoopIndex(), g.ConnMatrixRow(), g.ConnMatrixColumn()
+}
+
+func lemmaUpdateIndexes(fd, el, row, col, row2, col2 int) (a, b, c, d int) {
+	g := NewGFD(fd, el, row, col)
+	g.UpdateIndexes(row2, col2)
+	return g.Fd(), g.EventLoopIndex(), g.ConnMatrixRow(), g.ConnMatrixColumn()
+}
